@@ -101,12 +101,25 @@ Theorem taxii_version_forwarded : forall E, In E (entries Tgen) -> taxii_entry E
 Proof. exact (taxii_version_forwarded_pf Tgen gen_taxii). Qed.
 Print Assumptions taxii_version_forwarded.
 
-(* recorded deviation: TAXIICollectionSource.all_versions parses twice, the first time without the version *)
-Theorem taxii_all_versions_first_parse_unversioned :
-  forall E, In E (entries Tgen) -> In (e_name E) taxii_reparse ->
-    exists s, reachable Tgen (e_init E) s /\ is_terminal s = true /\ terminal_ok E s = false.
-Proof. exact (taxii_all_versions_first_parse_unversioned_pf Tgen gen_taxii). Qed.
-Print Assumptions taxii_all_versions_first_parse_unversioned.
+(* the call site  all_versions -> self.query(query=.., _composite_filters=..)  is the ONLY place of the whole table
+   (TAXII included) where the version is not handed on: with that one site also binding version <- version
+   (`with_query_version`, the identity on a table that already does), EVERY entry point forwards it *)
+Theorem taxii_single_deviation :
+  map e_name (entries (with_query_version Tgen)) = map e_name (entries Tgen) /\
+  forall E, In E (entries (with_query_version Tgen)) ->
+  forall s, reachable (with_query_version Tgen) (e_init E) s -> is_terminal s = true ->
+    got s "version" = SArg "version" /\ ~ In "arg:version" (roots (got s "interoperability")).
+Proof. split. exact gen_repair_keeps_entries. exact (all_entries_forward _ gen_single_site_repair). Qed.
+Print Assumptions taxii_single_deviation.
+
+(* the deviation itself, on a frozen excerpt of the TAXII source (as of /repo 9bfe19c): all_versions reaches the
+   parser with version None (through self.query), and the one-site repair removes it *)
+Theorem taxii_all_versions_first_parse_unversioned_refuted :
+  (exists E s, In E (entries pinned_taxii) /\ e_name E = "taxii.TAXIICollectionSource.all_versions"
+     /\ reachable pinned_taxii (e_init E) s /\ is_terminal s = true /\ got s "version" = SConst "None")
+  /\ all_entries_check (with_query_version pinned_taxii) = true.
+Proof. split. exact taxii_all_versions_first_parse_unversioned_pf. exact pinned_taxii_repaired. Qed.
+Print Assumptions taxii_all_versions_first_parse_unversioned_refuted.
 
 (* ---- the defective variant: frozen excerpt of the table of the pinned tree (before the repair) ---- *)
 Theorem store_call_sites_positional_refuted :
